@@ -44,6 +44,7 @@ type Obligation struct {
 	CandidateSolver int
 	Disagree        bool
 	lemmaIdx        int
+	extGround       bool // build the ground query in extended mode
 	Wall            float64
 	Preset          bool // decided without a solver (structural obligations)
 }
